@@ -413,6 +413,12 @@ func typesSource(c *spec.Case) string {
 	var sb strings.Builder
 	sb.WriteString(typeDecls(c, ""))
 	sb.WriteString(compositeHelpers(c))
+	for i := range c.Provs {
+		if c.Provs[i].ErrAlias {
+			sb.WriteString("// Failure is how some providers spell their error result.\ntype Failure = error\n\n")
+			break
+		}
+	}
 	sb.WriteString("var _ = vrt.Mix\n")
 	return sb.String()
 }
@@ -420,9 +426,15 @@ func typesSource(c *spec.Case) string {
 // namesSource declares the extra package-level identifiers in a file without imports.
 func namesSource(c *spec.Case) string {
 	var sb strings.Builder
+	if c.NamesGenerated {
+		sb.WriteString("// Code generated by \"stringer -type=Kind\"; DO NOT EDIT.\n\n")
+	}
 	sb.WriteString("package " + UserPkg + "\n\n")
 	for _, n := range c.PkgNames {
 		fmt.Fprintf(&sb, "var %s = 0\n\nfunc init() { _ = %s }\n\n", n, n)
+	}
+	for _, n := range c.PkgFuncs {
+		fmt.Fprintf(&sb, "func %s() int { return 0 }\n\n", n)
 	}
 	return sb.String()
 }
@@ -449,7 +461,12 @@ func extSource(c *spec.Case, e *spec.Ext) string {
 		}
 	}
 	for _, v := range e.Vars {
-		fmt.Fprintf(&sb, "var %s = %s(%d)\n\n", v.Name, strings.ToUpper(mk(v.Type)[:1])+mk(v.Type)[1:], v.H)
+		mkf := strings.ToUpper(mk(v.Type)[:1]) + mk(v.Type)[1:]
+		if v.Holder {
+			fmt.Fprintf(&sb, "var %s = struct{ V %s }{V: %s(%d)}\n\n", v.Name, c.Expr(v.Type, e.Key), mkf, v.H)
+		} else {
+			fmt.Fprintf(&sb, "var %s = %s(%d)\n\n", v.Name, mkf, v.H)
+		}
 	}
 	if hasMethod {
 		sb.WriteString("// FactoryT's methods are used as providers through method values of Factory.\ntype FactoryT struct{}\n\nvar Factory FactoryT\n\n")
@@ -488,7 +505,11 @@ func providerSig(c *spec.Case, p *spec.Prov, from string) (params, results strin
 		rs = append(rs, c.Expr(t, from))
 	}
 	if p.Err {
-		rs = append(rs, "error")
+		if p.ErrAlias {
+			rs = append(rs, "Failure")
+		} else {
+			rs = append(rs, "error")
+		}
 	}
 	res := strings.Join(rs, ", ")
 	if len(rs) > 1 {
